@@ -591,7 +591,6 @@ func (p *Func) inlineClosureEnd(cb *CodeBuilder) {
 	sig := p.Type().(*types.Signature)
 	fnBody, _ := cb.endFuncBody(p.old)
 	cb.emitStmt(&target.BlockStmt{List: fnBody})
-	cb.stk.PopN(p.getInlineCallArity())
 	results := sig.Results()
 	for i, n := 0, results.Len(); i < n; i++ { // return results & clean env
 		key := closureParamInst{p, results.At(i)}
@@ -631,6 +630,8 @@ func (p *CodeBuilder) CallInlineClosureStart(sig *types.Signature, arity int, el
 	for i := n1; i >= 0; i-- {
 		p.emitVar(pkg, closure, getParam(sig, i), true)
 	}
+	// the arguments are consumed by now: statements of the body start from here
+	p.current.base = p.stk.Len()
 	return p
 }
 
